@@ -130,7 +130,7 @@ Proof. exact ScopeProofs.steps_scope_spec. Qed.
 Print Assumptions C08_C05_steps_scope_folds_ids.
 Theorem C08_C05_needs_scope_folds_ids : forall jobs job n,
   Scope.resolve (Scope.needs_scope jobs job) [n] = Scope.VUndefined <->
-  ~ (In n (map lower (Scope.j_needs job)) /\ n <> Scope.j_rawid job /\ Scope.find_job jobs n <> None).
+  ~ (In n (map lower (Scope.j_needs job)) /\ n <> lower (Scope.j_rawid job) /\ Scope.find_job jobs n <> None).
 Proof. exact ScopeProofs.needs_scope_spec. Qed.
 Print Assumptions C08_C05_needs_scope_folds_ids.
 
@@ -175,3 +175,35 @@ Theorem C08_C18_unresolved_folded : forall jobs ord ds,
       ~ (exists j', In j' jobs /\ lower (Needs.j_id j') = dep).
 Proof. exact NeedsProofs.unresolved_exact_jobs. Qed.
 Print Assumptions C08_C18_unresolved_folded.
+
+(* calls (C14): the letter case of input / secret / output names at the call
+   site or in the callee's declaration never changes a verdict, only the
+   spelling echoed in the message.  ([Require] without [Import]: names clash
+   with Expr.Sema.) *)
+From AL Require Wf.Calls Wf.CallsProofs.
+
+Theorem C08_C14_calls_recase_call : forall m names names' c n,
+  CallsProofs.wf_names names -> map lower names = map lower names' ->
+  In (c, n) (Calls.check_action m (Calls.parse_with names)) ->
+  exists n', lower n' = lower n /\ In (c, n') (Calls.check_action m (Calls.parse_with names')).
+Proof. exact CallsProofs.calls_recase_call. Qed.
+Print Assumptions C08_C14_calls_recase_call.
+
+Theorem C08_C14_calls_recase_def : forall m m' e c n,
+  CallsProofs.same_modulo_case m m' ->
+  In (c, n) (Calls.check_action m e) ->
+  exists n', lower n' = lower n /\ In (c, n') (Calls.check_action m' e).
+Proof. exact CallsProofs.calls_recase_def. Qed.
+Print Assumptions C08_C14_calls_recase_def.
+
+Theorem C08_C14_calls_recase_wf_secrets : forall m with_ ss ss' c n,
+  CallsProofs.wf_names ss -> map lower ss = map lower ss' ->
+  In (c, n) (Calls.check_workflow_call m (Calls.parse_wcall with_ (Calls.SecMap ss))) ->
+  exists n', lower n' = lower n /\ In (c, n') (Calls.check_workflow_call m (Calls.parse_wcall with_ (Calls.SecMap ss'))).
+Proof. exact CallsProofs.calls_recase_wf_secrets. Qed.
+Print Assumptions C08_C14_calls_recase_wf_secrets.
+
+Theorem C08_C14_calls_recase_output : forall t r r', lower r = lower r' ->
+  Calls.deref_reported t r = Calls.deref_reported t r'.
+Proof. exact CallsProofs.calls_recase_output. Qed.
+Print Assumptions C08_C14_calls_recase_output.
